@@ -131,10 +131,11 @@ func liveNode(r *run.Rand) *Node {
 
 // replaceLeaf puts the live node in place of a random leaf that is neither in
 // a constant-only argument nor in an element scope.
-func replaceLeaf(r *run.Rand, t *Node, live *Node) bool {
+func replaceLeaf(r *run.Rand, t *Node, live *Node, allowShadow bool) (ok bool, inShadow bool) {
 	type site struct {
 		parent *Node
 		i      int
+		shadow bool
 	}
 	var sites []site
 	var walk func(n *Node, shadow bool)
@@ -144,19 +145,19 @@ func replaceLeaf(r *run.Rand, t *Node, live *Node) bool {
 			if n.K == nMath || (n.K == nCall && n.S == "time" && i == 0) {
 				continue
 			}
-			if (a.K == nLit && !a.NoLift || a.K == nIdx || a.K == nKey) && !a.R && !sh && n.K == nCall && !(n.S == "@for" && i == 0) {
-				sites = append(sites, site{n, i})
+			if (a.K == nLit && !a.NoLift || a.K == nIdx || a.K == nKey) && !a.R && (!sh || allowShadow) && n.K == nCall && !n.User && !(n.S == "@for" && i == 0) {
+				sites = append(sites, site{n, i, sh})
 			}
 			walk(a, sh)
 		}
 	}
 	walk(t, false)
 	if len(sites) == 0 {
-		return false
+		return false, false
 	}
 	s := sites[r.Intn(len(sites))]
 	s.parent.A[s.i] = live
-	return true
+	return true, s.shadow
 }
 
 func live(c *run.Ctx) {
@@ -188,21 +189,53 @@ func live(c *run.Ctx) {
 		mk("{@reduce {@ 1 2 3} {sumi {0} {1} {time delta}}}", "", fpLiveRange)
 	}
 	mk("{@map {arr} {time live}}", "", "") // dynamic array: looked up, must vary
-	// generated surroundings
+	// generated surroundings; the two known classes (clock inside an element
+	// scope / inside a funcs-file body) are generated only while not listed
+	allowRange, allowFuncs := !c.KnownActive(fpLiveRange), !c.KnownActive(fpLiveFuncs)
 	N := c.N(96, 960)
 	for i := 0; i < N; i++ {
 		r := c.Rand("live", i)
 		g := newGen(r)
+		g.forKeys = true
 		g.pConst = modeOf(r)
+		if i%3 == 2 {
+			if !allowFuncs {
+				continue
+			}
+			fs, ok := g.genFuncs()
+			if !ok {
+				continue
+			}
+			f := fs[r.Intn(len(fs))]
+			if ok, _ := replaceLeaf(r, f.Body, liveNode(r), allowRange); !ok {
+				continue
+			}
+			file, ok := g.layout(fs)
+			if !ok {
+				continue
+			}
+			g.pConst = modeOf(r)
+			tpl, ok := Print(g.callSite([]*ufunc{f}, 1))
+			if !ok {
+				continue
+			}
+			all = append(all, &Case{Kind: "live", Tpl: tpl, File: file, Ctxs: []Ctx{genCtx(r, 0, false)}, Class: fpLiveFuncs})
+			continue
+		}
 		tree := g.template(r.Range(1, 2), topScope())
-		if !replaceLeaf(r, tree, liveNode(r)) {
+		ok, sh := replaceLeaf(r, tree, liveNode(r), allowRange)
+		if !ok {
 			continue
 		}
 		tpl, ok := Print(tree)
 		if !ok {
 			continue
 		}
-		all = append(all, &Case{Kind: "live", Tpl: tpl, Ctxs: []Ctx{genCtx(r, 0, false)}})
+		cs := &Case{Kind: "live", Tpl: tpl, Ctxs: []Ctx{genCtx(r, 0, false)}}
+		if sh {
+			cs.Class = fpLiveRange
+		}
+		all = append(all, cs)
 	}
 	var mine []*Case
 	for i, cs := range all {
